@@ -496,6 +496,13 @@ static int bad_IdExtract(fc_ctx* c, int j, err_t* exp)
 		exp[0] = ERR_BAD_SIG;
 		return 1;
 	}
+	if (j == 1)
+	{
+		/* s1 >= q */
+		memset(c->a[3], 0xFF, 3 * c->n[10] / 8);
+		exp[0] = ERR_BAD_SIG;
+		return 1;
+	}
 	return 0;
 }
 /* IdSign: a0 id_sig, a2 id_hash, a4 hash, a5 id_privkey */
@@ -588,6 +595,7 @@ static int bad_IdVerify(fc_ctx* c, int j, err_t* exp)
 	case 0: ((octet*)c->a[8])[fc_below(c, (uint32_t)(3 * c->n[10] / 8))] ^= 1; return 1;
 	case 1: ((octet*)c->a[4])[0] ^= 1; return 1;
 	case 2: ((octet*)c->a[2])[0] ^= 1; return 1;
+	case 3: memset(c->a[8], 0xFF, 3 * c->n[10] / 8); return 1;   /* s1 >= q */
 	}
 	return 0;
 }
